@@ -4,6 +4,7 @@ import Huginn.Spec.Hpack
 import Huginn.Lemmas.H2Frames
 import Huginn.Lemmas.Akamai
 import Huginn.Lemmas.H2Message
+import Huginn.Lemmas.HpackTables
 import Huginn.Props.C17
 set_option linter.unusedSimpArgs false
 set_option linter.unusedVariables false
@@ -614,5 +615,144 @@ theorem kf_listCase_witness :
     (Hpack.crate.dec Hpack.crate.init blockGood).1 = some hs ∧
     (processorsParseRequest Hpack.crate (fun _ => none) wGood).map obsReqCore ≠ some (obsRequestOf (fun _ => none) hs) := by
   decide
+
+/-! ## 6. the serialising direction: every header list, every encoding, any control frames first -/
+
+/-- wire form of a frame sequence (reserved bits clear) -/
+def ser (frames : List Frame) : Bytes := (frames.map (wire false)).flatten
+
+private theorem wireAll_replicate (frames : List Frame) :
+    wireAll (List.replicate frames.length false) frames = ser frames := by
+  induction frames with
+  | nil => rfl
+  | cons f fs ih => simp [wireAll, ser, List.replicate_succ] at ih ⊢; rw [ih]
+
+private theorem tail_nil : Tail [] := by
+  rintro ⟨r, f, more, _, h⟩
+  have := congrArg List.length h
+  simp [wire] at this
+
+private theorem splits_ser (frames : List Frame) (hacc : ∀ g ∈ frames, Acceptable g) : Splits (ser frames) frames :=
+  ⟨List.replicate frames.length false, [], by simp, by rw [wireAll_replicate]; simp, hacc, tail_nil⟩
+
+private theorem firstWithRest_append (p : Frame → Bool) : ∀ (pre l : List Frame),
+    (∀ g ∈ pre, p g = false) → firstWithRest p (pre ++ l) = firstWithRest p l := by
+  intro pre
+  induction pre with
+  | nil => intro l _; rfl
+  | cons g gs ih =>
+    intro l h
+    simp only [List.cons_append, firstWithRest, h g (by simp), Bool.false_eq_true, if_false]
+    exact ih l (fun x hx => h x (List.mem_cons_of_mem _ hx))
+
+private theorem takeWhile_append_all {α} (p : α → Bool) : ∀ (pre : List α) (x : α) (l : List α),
+    (∀ g ∈ pre, p g = true) → p x = false → (pre ++ x :: l).takeWhile p = pre := by
+  intro pre
+  induction pre with
+  | nil => intro x l _ hx; simp [List.takeWhile, hx]
+  | cons g gs ih =>
+    intro x l h hx
+    simp only [List.cons_append, List.takeWhile, h g (by simp)]
+    rw [ih x l (fun y hy => h y (List.mem_cons_of_mem _ hy)) hx]
+
+private theorem hasPreface_append (x : Bytes) : hasPreface (clientPreface ++ x) = true := by
+  unfold hasPreface
+  rw [C17.preface_is_rfc]
+  exact List.isPrefixOf_iff_prefix.mpr (List.prefix_append _ _)
+
+private theorem afterPreface_append (x : Bytes) : afterPreface (clientPreface ++ x) = x := by
+  unfold afterPreface
+  have : clientPreface.isPrefixOf (clientPreface ++ x) = true :=
+    List.isPrefixOf_iff_prefix.mpr (List.prefix_append _ _)
+  simp [this]
+
+/-- **C16, serialising direction.** For *every* field list `hs` that is a legal request, *every*
+encoding `block` of it (anything `H` decodes to `hs` — indexed, literal, Huffman, size updates, …),
+*every* sequence `pre` of acceptable frames sent first (SETTINGS, WINDOW_UPDATE, PING, PRIORITY, DATA,
+frames of other streams, … — anything but a request HEADERS frame or a CONTINUATION on the
+message's stream), every stream id and every flag byte with END_HEADERS set and PADDED/PRIORITY
+clear: the client preface followed by those frames and the HEADERS frame is reported as the
+request of `hs`. (PADDED / PRIORITY / CONTINUATION framings are the known-finding classes.) -/
+theorem h2_request_roundtrip (H : Hpack) (pre : List Frame) (sid : Nat) (fl : UInt8) (block : Bytes)
+    (hs : List Field) (σ' : H.σ)
+    (hacc : ∀ g ∈ pre, Acceptable g) (hsid0 : sid ≠ 0) (hsid : sid < 2 ^ 31)
+    (hlen : block.length ≤ defaultMaxFrameSize)
+    (hpre : ∀ g ∈ pre, isMsgHeaders g = false ∧ (isContinuation g && g.sid == sid) = false)
+    (hend : flagSet fl 4 = true) (hpad : flagSet fl 8 = false) (hpri : flagSet fl 32 = false)
+    (hdec : H.dec H.init block = (some hs, σ'))
+    (hleg : legalRequestFields hs = true) (k4 : KF.C16.emptyValue true hs = false) :
+    ∃ r, parseRequest H (clientPreface ++ ser (pre ++ [{ ty := 1, flags := fl, sid := sid, payload := block }]))
+        = .ok (some r) ∧ reqCore r = requestOf hs := by
+  let hf : Frame := { ty := 1, flags := fl, sid := sid, payload := block }
+  have hmsg : isMsgHeaders hf = true := by
+    simp only [isMsgHeaders, isHeaders, hf, Bool.and_eq_true, bne_iff_ne]
+    exact ⟨by decide, hsid0⟩
+  have hfw : firstWithRest isMsgHeaders (pre ++ [hf]) = some (hf, []) := by
+    rw [firstWithRest_append _ _ _ (fun g hg => (hpre g hg).1)]
+    simp [firstWithRest, hmsg]
+  have hblock : headerBlock hf [] = .complete block := by
+    have : endHeaders hf = true := hend
+    simp [headerBlock, fragment_plain hf hpad hpri, this, hf]
+  have hpb : primaryBlock (pre ++ [hf]) = some (hf, [], .complete block) := by
+    unfold primaryBlock
+    rw [hfw]
+    simp [hblock]
+  have hall : ∀ g ∈ pre ++ [hf], Acceptable g := by
+    intro g hg
+    rw [List.mem_append] at hg
+    rcases hg with hg | hg
+    · exact hacc g hg
+    · simp only [List.mem_singleton] at hg
+      subst hg
+      exact ⟨hlen, hsid⟩
+  apply h2_request_decode_partial H _ (pre ++ [hf]) hf [] block hs σ' (hasPreface_append _)
+    (by rw [afterPreface_append]; exact splits_ser _ hall) hpb hdec hleg
+  · simp [noLaterBlocks]
+  · unfold noStrayContinuation beforePrimary
+    rw [takeWhile_append_all _ pre hf [] (fun g hg => by simp [(hpre g hg).1]) (by simp [hmsg])]
+    rw [List.all_eq_true]
+    intro g hg
+    have := (hpre g hg).2
+    simp only [hf]
+    simp [this]
+  · unfold KF.C16.headersPaddedOrPriority
+    rw [hfw]
+    have h1 : padded hf = false := hpad
+    have h2 : hasPriority hf = false := hpri
+    simp [h1, h2]
+  · unfold KF.C16.headersContinued
+    rw [hfw]
+    have : endHeaders hf = true := hend
+    simp [this]
+  · exact k4
+
+/-! ## 7. the third-party HPACK tables against RFC 7541 (regenerated from the crate source on every run) -/
+
+/-- the crate's `HUFFMAN_CODE_TABLE` is exactly the canonical Huffman code of the RFC 7541
+Appendix B code lengths -/
+theorem crate_huffman_is_rfc : Gen.Hpack.huffman = (List.range 257).map Lemmas.HpackTables.rfcCode :=
+  Lemmas.HpackTables.crate_huffman_is_rfc
+
+/-- that code is complete (Kraft sum = 1) … -/
+theorem rfc_huffman_kraft : (Spec.Hpack.huffLengths.map (fun l => 2 ^ (30 - l))).sum = 2 ^ 30 :=
+  Lemmas.HpackTables.rfc_huffman_kraft
+
+/-- … and prefix-free: read as dyadic intervals of `[0, 2^30)` (the 30-bit strings that start with
+the code word), the 257 code words tile `[0, 2^30)` in order — so no code word is a prefix of another
+and every 30-bit string starts with exactly one of them -/
+theorem rfc_huffman_partition :
+    let iv := Spec.Hpack.huffCode.map Lemmas.HpackTables.interval
+    iv.length = 257 ∧ iv.head?.map (·.1) = some 0 ∧ iv.getLast?.map (·.2) = some (2 ^ 30) ∧
+    (iv.zip iv.tail).all (fun p => p.1.2 == p.2.1) = true :=
+  Lemmas.HpackTables.rfc_huffman_partition
+
+/-- the crate's `STATIC_TABLE` differs from RFC 7541 Appendix A in exactly one entry: index 15
+(`accept-` instead of `accept-charset`) — the class `KF.C16.hpackStaticEntry15` -/
+theorem crate_static_table_vs_rfc :
+    Gen.Hpack.staticTable.length = 61 ∧ Spec.Hpack.staticTable.length = 61 ∧
+    (List.range 61).filter (fun i => Gen.Hpack.staticTable[i]? != Spec.Hpack.staticTable[i]?) = [14] := by
+  decide +kernel
+
+theorem crate_defaults : Gen.Hpack.defaultDynSize = Spec.Hpack.protocolMax ∧ Gen.Hpack.octetLimit = 5 := by decide
 
 end Huginn.Props.C16
